@@ -239,13 +239,16 @@ class Script:
                     ev["drawn"] = len(self.draw_log) > mark
                 return None
             if op == "Throw":
-                self.emit(ev="Throw", fid=fid, caller=caller)
+                self.emit(ev="Throw", fid=fid, caller=caller, drawn=False, draw=self.cur_draw)
+                ev, mark = self.events[-1], len(self.draw_log)
                 try:
                     obj.throw(Boom())
                 except Boom:
                     pass
                 except StopIteration:
                     pass
+                finally:
+                    ev["drawn"] = len(self.draw_log) > mark
                 self._finish(fid)
                 return None
             if op == "Drop":
